@@ -136,6 +136,13 @@ let do_help mode hex =
   | Ok (Some t) -> pr "tag %s\n" (hex_of_bytes t)
   | e -> pr "%s\n" (err_name e)
 
+(* trim <hex>: uc_trim on the string; cutstore <size> <hex>: snprintf into size bytes, then uc_trim *)
+let show_str = function
+  | Ok t -> pr "%s\n" (hex_of_bytes t)
+  | e -> pr "%s\n" (err_name e)
+let do_trim hex = show_str (uc_trim (bytes_of_hex hex))
+let do_cutstore size hex = show_str (cut_store (nat_of_int size) (bytes_of_hex hex))
+
 (* ai <k> ops: t = ^T, d = ^D, l<sp>:<pref empty 0/1>:<xai 0/1> = a finished line; answers strlen(ai) after the
    initial fill and after every operation *)
 let do_ai k ops =
@@ -184,4 +191,6 @@ let () =
     | ["help-nocut"; h] -> do_help CutNone h
     | ["help-chars"; h] -> do_help CutChars h
     | "ai" :: k :: ops -> do_ai (int_of_string k) ops
+    | ["trim"; h] -> do_trim h
+    | ["cutstore"; n; h] -> do_cutstore (int_of_string n) h
     | _ -> pr "?\n")
